@@ -130,8 +130,9 @@ pub fn run(ctx: &mut Ctx) {
         // correspondence on lane 0 for small cases
         if c.count <= 40 && model_q.len() < if thorough { 6000 } else { 600 } {
             let syms: Vec<String> = (0..c.count).map(|p| get_sym(&c.data[p * c.len64..(p + 1) * c.len64], 0).to_string()).collect();
-            for (sched, k) in [("naive", 0usize), ("two", 1usize)] {
-                model_q.push(format!("T {} {} {} {} {} {} {}", if c.inverse { "ifft" } else { "fft" }, sched, c.pos, c.size, c.trunc, c.delta, syms.join(",")));
+            // pointwise model and transliterated sequential loops, both schedules
+            for (sched, k, seq) in [("naive", 0usize, ""), ("two", 1usize, ""), ("naive", 0usize, "seq"), ("two", 1usize, "seq")] {
+                model_q.push(format!("T {}{} {} {} {} {} {} {}", if c.inverse { "ifft" } else { "fft" }, seq, sched, c.pos, c.size, c.trunc, c.delta, syms.join(",")));
                 let got: Vec<u16> = (0..c.count).map(|p| get_sym(&outs[k][p * c.len64..(p + 1) * c.len64], 0)).collect();
                 let valid: Vec<bool> = (0..c.count).map(|p| p < c.pos || p >= c.pos + c.size || p < c.pos + valid_hi).collect();
                 model_expect.push((describe(&c), got, valid));
